@@ -94,6 +94,9 @@ THEOREMS = [
     'C10.elastic_legacy_read_cubic',
     'C10.gen_legacyKey_eq_model', 'C10.gen_ecLegacy_keys_eq_model', 'C10.gen_legacyForm_eq_model',
     'C10.gen_legacy_branches', 'C10.legacyForm_refuses_count',
+    # round 6: formerly pinned by form only, now generated definitions: the argument handling of Atoms.model and the
+    # masses guard loop of System.model
+    'C10.gen_resolveCall_eq_model', 'C10.gen_massesGuard_eq_model',
 ]
 PARTIAL = {
     'length-1 vector through XML text': "uc.value_unit alone reads a shape-(1,) array back from XML text as a "
@@ -3998,6 +4001,131 @@ def _lrat(x):
 
 # ---- Atoms.model / Atoms.__init__(model=) ---------------------------------------------------------------------------
 
+def _lean_none_test(node, opt):
+    """`X is None` / `X is not None` / and / or / not over the optional variables `opt` -> Lean Bool expression."""
+    import ast
+    if isinstance(node, ast.BoolOp):
+        op = ' && ' if isinstance(node.op, ast.And) else ' || '
+        return '(' + op.join(_lean_none_test(v, opt) for v in node.values) + ')'
+    if isinstance(node, ast.UnaryOp) and isinstance(node.op, ast.Not):
+        return '(!' + _lean_none_test(node.operand, opt) + ')'
+    if isinstance(node, ast.Compare) and len(node.ops) == 1 and isinstance(node.left, ast.Name) and node.left.id in opt \
+            and isinstance(node.comparators[0], ast.Constant) and node.comparators[0].value is None:
+        if isinstance(node.ops[0], ast.Is):
+            return f'{node.left.id}.isNone'
+        if isinstance(node.ops[0], ast.IsNot):
+            return f'{node.left.id}.isSome'
+    raise _TE('argument handling: test ' + _u_(node))
+
+
+def _lean_list_expr(node, vals):
+    """the list-valued expressions of the argument handling over the (no longer optional) variables `vals`."""
+    import ast
+    if _u_(node) == 'self.prop()':
+        return 'own'
+    if isinstance(node, ast.Name) and node.id in vals:
+        return node.id
+    if isinstance(node, ast.ListComp) and isinstance(node.elt, ast.Constant) and node.elt.value is None \
+            and len(node.generators) == 1 and not node.generators[0].ifs:
+        it = node.generators[0].iter
+        if isinstance(it, ast.Call) and _u_(it.func) == 'range' and len(it.args) == 1:
+            return f'(List.replicate {_lean_len(it.args[0], vals)} none)'
+    raise _TE('argument handling: expression ' + _u_(node))
+
+
+def _lean_len(node, vals):
+    import ast
+    if isinstance(node, ast.Call) and _u_(node.func) == 'len' and len(node.args) == 1 and isinstance(node.args[0], ast.Name) \
+            and node.args[0].id in vals:
+        return f'{node.args[0].id}.length'
+    raise _TE('argument handling: length ' + _u_(node))
+
+
+def _lean_len_test(node, vals):
+    import ast
+    ops = {ast.NotEq: '≠', ast.Eq: '=', ast.Lt: '<', ast.Gt: '>', ast.LtE: '≤', ast.GtE: '≥'}
+    if isinstance(node, ast.Compare) and len(node.ops) == 1 and type(node.ops[0]) in ops:
+        return f'{_lean_len(node.left, vals)} {ops[type(node.ops[0])]} {_lean_len(node.comparators[0], vals)}'
+    raise _TE('argument handling: test ' + _u_(node))
+
+
+def _gen_resolve_call(st):
+    """the `if prop_unit is None: … elif …: raise` statement at the top of Atoms.model as a Lean definition (Option =
+    a raised ValueError): defaults of the lists, refusals in their order, the dictionary filled from the zip."""
+    import ast
+    _expect(isinstance(st, ast.If) and _u_(st.test) == 'prop_unit is None', 'Atoms.model: if prop_unit is None')
+    out = ['def atomsResolveCall (own : List String) (prop_name : Option (List String)) (unit : Option (List (Option String)))',
+           '    (prop_unit : Option (List (String × Option String))) : Option (List (String × Option String)) :=',
+           '  match prop_unit with', '  | none =>']
+    opt, vals, dct = {'prop_name', 'unit'}, set(), None
+    body = list(st.body)
+    i = 0
+    while i < len(body):
+        s = body[i]
+        if isinstance(s, ast.If) and not s.orelse and len(s.body) == 1 and isinstance(s.body[0], ast.Raise):
+            out.append(f'    if {_lean_len_test(s.test, vals)} then none else')
+        elif isinstance(s, ast.If) and not s.orelse and len(s.body) == 1 and _assign(s.body[0]) is not None:
+            tgt, val = _assign(s.body[0])
+            _expect(isinstance(tgt, ast.Name) and tgt.id in opt and _lean_none_test(s.test, opt) == f'{tgt.id}.isNone',
+                    'argument handling: default ' + _u_(s))
+            out.append(f'    let {tgt.id} := {tgt.id}.getD {_lean_list_expr(val, vals)}')
+            opt.discard(tgt.id)
+            vals.add(tgt.id)
+        elif _assign(s) is not None and isinstance(_assign(s)[1], ast.Dict) and not _assign(s)[1].keys \
+                and isinstance(_assign(s)[0], ast.Name) and i + 1 < len(body) and isinstance(body[i + 1], ast.For):
+            dct = _assign(s)[0].id
+            lp = body[i + 1]
+            _expect(isinstance(lp.target, ast.Tuple) and len(lp.target.elts) == 2 and all(isinstance(e, ast.Name) for e in lp.target.elts)
+                    and isinstance(lp.iter, ast.Call) and _u_(lp.iter.func) == 'zip' and len(lp.iter.args) == 2
+                    and all(isinstance(a, ast.Name) and a.id in vals for a in lp.iter.args) and not lp.orelse
+                    and len(lp.body) == 1 and _assign(lp.body[0]) is not None, 'argument handling: fill loop ' + _u_(lp))
+            names = [e.id for e in lp.target.elts]
+            tgt, val = _assign(lp.body[0])
+            _expect(isinstance(tgt, ast.Subscript) and _u_(tgt.value) == dct and isinstance(tgt.slice, ast.Name)
+                    and tgt.slice.id in names and isinstance(val, ast.Name) and val.id in names and val.id != tgt.slice.id,
+                    'argument handling: fill statement ' + _u_(lp.body[0]))
+            proj = lambda n: 'e.1' if names.index(n) == 0 else 'e.2'      # noqa: E731
+            out.append(f'    let {dct} := ({lp.iter.args[0].id}.zip {lp.iter.args[1].id}).foldl '
+                       f'(fun d e => dictSet d {proj(tgt.slice.id)} {proj(val.id)}) []')
+            i += 1
+        else:
+            raise _TE('argument handling: statement ' + _u_(s)[:80])
+        i += 1
+    _expect(dct == 'prop_unit' and not opt, 'argument handling: the dictionary is not built from both lists')
+    out.append('    some prop_unit')
+    out.append('  | some prop_unit =>')
+    _expect(len(st.orelse) == 1 and isinstance(st.orelse[0], ast.If) and not st.orelse[0].orelse
+            and len(st.orelse[0].body) == 1 and isinstance(st.orelse[0].body[0], ast.Raise), 'Atoms.model: refusal of prop_unit with lists')
+    out.append(f"    if {_lean_none_test(st.orelse[0].test, {'prop_name', 'unit'})} then none else")
+    out.append('    some prop_unit')
+    return out
+
+
+def _gen_flag_loop(init, loop, name, var_iter):
+    """`flag = False; for x in <iter>: if <test on x>: flag = True; break` as a Lean `List.any` over optional numbers."""
+    import ast
+    tgt, val = _assign(init)
+    _expect(isinstance(tgt, ast.Name) and isinstance(val, ast.Constant) and val.value is False, 'flag loop: initial value')
+    flag = tgt.id
+    _expect(isinstance(loop, ast.For) and isinstance(loop.target, ast.Name) and _u_(loop.iter) == var_iter and not loop.orelse
+            and len(loop.body) == 1 and isinstance(loop.body[0], ast.If) and not loop.body[0].orelse, 'flag loop: loop ' + _u_(loop)[:60])
+    x = loop.target.id
+    ib = loop.body[0].body
+    _expect(1 <= len(ib) <= 2 and _u_(ib[0]) == f'{flag} = True' and (len(ib) == 1 or isinstance(ib[1], ast.Break)),
+            'flag loop: body ' + _u_(loop.body[0])[:60])
+
+    def tst(n):
+        if isinstance(n, ast.BoolOp):
+            return '(' + (' && ' if isinstance(n.op, ast.And) else ' || ').join(tst(v) for v in n.values) + ')'
+        if isinstance(n, ast.UnaryOp) and isinstance(n.op, ast.Not):
+            return '(!' + tst(n.operand) + ')'
+        if isinstance(n, ast.Name) and n.id == x:          # truthiness of an optional number
+            return f'(match {x} with | some v => decide (v ≠ 0) | none => false)'
+        return _lean_none_test(n, {x})
+    return flag, [f'def {name} {{K : Type}} [OfNat K 0] [DecidableEq K] (l : List (Option K)) : Bool := '
+                  f'l.any (fun {x} => {tst(loop.body[0].test)})']
+
+
 def _tr_atoms(tree):
     import ast
     L = ['/-! ### `Atoms.model`, `Atoms.__init__(model=…)` -/']
@@ -4007,16 +4135,7 @@ def _tr_atoms(tree):
     b = _body(fn)
     got = [_u_(s) for s in b]
     # (1) the argument handling
-    _expect(isinstance(b[0], ast.If) and _u_(b[0].test) == 'prop_unit is None', 'Atoms.model: if prop_unit is None')
-    inner = [_u_(s) for s in b[0].body]
-    _expect(inner == ['if prop_name is None:\n    prop_name = self.prop()',
-                      'if unit is None:\n    unit = [None for i in range(len(prop_name))]',
-                      "if len(unit) != len(prop_name):\n    raise ValueError('')",
-                      'prop_unit = {}',
-                      'for p, u in zip(prop_name, unit):\n    prop_unit[p] = u'], 'Atoms.model: list forms: ' + repr(inner))
-    _expect(len(b[0].orelse) == 1 and isinstance(b[0].orelse[0], ast.If) and not b[0].orelse[0].orelse
-            and _u_(b[0].orelse[0].test) == 'prop_name is not None or unit is not None'
-            and isinstance(b[0].orelse[0].body[0], ast.Raise), 'Atoms.model: refusal of prop_unit with lists')
+    resolve = _gen_resolve_call(b[0])
     # (2) default unit of pos
     st = b[1]
     _expect(isinstance(st, ast.If) and not st.orelse and isinstance(st.test, ast.BoolOp) and isinstance(st.test.op, ast.And)
@@ -4062,9 +4181,8 @@ def _tr_atoms(tree):
     L.append('/-- the argument handling, slot by slot (statement-for-statement match): outer test; defaults of the lists; '
              'refusals; how the dictionary is filled. -/')
     L.append('def atomsCallOuter : String := "prop_unit is None"')
-    L.append('def atomsCallDefaults : List (String × String) := [("prop_name", "self.prop()"), ("unit", "[None for i in range(len(prop_name))]")]')
-    L.append('def atomsCallRefusals : List String := ["len(unit) != len(prop_name)", "prop_name is not None or unit is not None"]')
-    L.append('def atomsCallFill : String := "for p, u in zip(prop_name, unit): prop_unit[p] = u"')
+    L.append('/-- the statement as a definition (`none` = the `ValueError`): `own` is `self.prop()`. -/')
+    L += resolve
     L.append(f'/-- `if {dname!r} in prop_unit and prop_unit[{dname!r}] is None: … = {dunit!r}`. -/')
     L.append(f'def atomsDefaultUnit : String × String := ({_ls(dname)}, {_ls(dunit)})')
     L.append(f'def atomsRoot : String := {_ls(root)}')
@@ -4147,10 +4265,11 @@ def _tr_system(tree, dump_tree):
             _expect(_u_(c.args[1]) == _u_(st.target), 'System.model: append loop value')
             events.append((c.args[0].value, 'append', ''))
             extra[c.args[0].value] = _u_(st.iter)
-        elif _u_(st) == 'addmasses = False':
-            got = [_u_(b[i + 1]), _u_(b[i + 2].test) if isinstance(b[i + 2], ast.If) else '']
-            _expect(got == ['for mass in self.masses:\n    if mass is not None:\n        addmasses = True\n        break',
-                            'addmasses'], 'System.model: masses guard ' + repr(got))
+        elif _assign(st) is not None and isinstance(_assign(st)[1], ast.Constant) and _assign(st)[1].value is False \
+                and i + 2 < len(b) and isinstance(b[i + 2], ast.If):
+            flag, guard_def = _gen_flag_loop(st, b[i + 1], 'massesGuard', 'self.masses')
+            _expect(_u_(b[i + 2].test) == flag, 'System.model: masses guard ' + _u_(b[i + 2].test))
+            extra['guard_def'] = guard_def
             g = b[i + 2]
             _expect(not g.orelse and len(g.body) == 1 and isinstance(g.body[0], ast.For), 'System.model: masses loop')
             lp = g.body[0]
@@ -4183,6 +4302,8 @@ def _tr_system(tree, dump_tree):
         flag = 'hasMasses' if guard else 'hasSymbols'
         return f'(if {flag} then [{_ls(key)}] else [])'
     L.append(f'def systemModelParams : List (String × Option String) := {_lparams(ps)}')
+    L.append('/-- the flag loop in front of the masses: are they written at all? -/')
+    L += extra['guard_def']
     L.append(f'def systemRoot : String := {_ls(root)}')
     L.append('/-- the keys under the root in order; an `append` loop over no symbol writes nothing, the masses are '
              'appended only when one of them is not `None`. -/')
